@@ -499,15 +499,11 @@ class CRFactory(object):
         )
 
         #Deterministic contribution given by relaxation
-        if omega == 0:
-            # Limits of the expressions below for omega -> 0 (no rotation of the target qubit).
-            det1 = 0
-            det2 = 0
-            det3 = a
-        else:
-            det1 = (a*omega-a*np.sin(omega))/(2*omega)
-            det2 = (a/omega)*(1-np.cos(omega))
-            det3 = a/(2*omega)*(omega+np.sin(omega))
+        # The integrals follow the pulse shape like the Itô integrals above. For the constant pulse they are
+        # (a*omega-a*sin(omega))/(2*omega), (a/omega)*(1-cos(omega)) and a/(2*omega)*(omega+sin(omega)).
+        det1 = self.integrator.integrate("sin(theta/(2*a))**2", omega, a)
+        det2 = self.integrator.integrate("sin(theta/a)", omega, a)
+        det3 = self.integrator.integrate("cos(theta/(2*a))**2", omega, a)
 
         deterministic_r_ctr = -e1_ctr**2/2 * np.array([[0,0,0,0],[0,0,0,0],[0,0,a,0],[0,0,0,a]])
         deterministic_r_trg = -e1_trg**2/2 * np.array(
